@@ -248,9 +248,18 @@ def _check_carried(ctx, F, w, c, pc, loop, fn, sim):
                 ctx.ok("R5.1", "write into a worker-local container is keyed and guarded row-invariantly", ev.node,
                        ev.fn)
                 continue
+            # is what one row leaves behind ever used by the next row before that row overwrites it?
+            loc = loc_of_target(t)
+            kw = KillWalker(eng, w, {loc})
+            kw.regions = {"fresh"}
+            kw.block(loop.a["body"], set())
+            if loc not in kw.early:
+                ctx.ok("R5.1", "what a row leaves in a worker-local object is reset before the next row uses it",
+                       ev.node, ev.fn)
+                continue
             ctx.violate("R5.1", inst, ev.node, ev.fn,
-                        "state written in one row's iteration can be read by the next row [%s%s]" %
-                        ("sim:" if sim else "", c.name))
+                        "state written in one row's iteration can be read by the next row (%s) [%s%s]" %
+                        (kw.early[loc][1], "sim:" if sim else "", c.name))
     # every object trained inside the loop is fully reset by that fit (kill analysis on the very call)
     for fitc in fit_calls:
         wanted = set()
@@ -367,10 +376,37 @@ def _ordered_reduction(node, res_name, par):
     return False
 
 
-def check_partition_sites(ctx):
+ROWWISE_CALLS = {"len", "enumerate", "zip", "np.asarray", "np.array", "np.atleast_2d", "list", "iter", "range"}
+
+
+def _chunk_level_uses(fn, chunk):
+    """calls in fn that are given the whole chunk parameter and are not known row-by-row maps"""
+    bad = []
+    for c in ast.walk(fn.node):
+        if not isinstance(c, ast.Call):
+            continue
+        f = ast.unparse(c.func)
+        direct = [i for i, a in enumerate(c.args) if isinstance(a, ast.Name) and a.id == chunk] + \
+                 [k.arg for k in c.keywords if isinstance(k.value, ast.Name) and k.value.id == chunk]
+        recv = isinstance(c.func, ast.Attribute) and isinstance(c.func.value, ast.Name) and c.func.value.id == chunk
+        if not direct and not recv:
+            continue
+        if f in ROWWISE_CALLS:
+            continue
+        if f in ("np.dot", "np.matmul") and direct == [0]:
+            continue                    # X . P: every output row depends on its own input row only
+        if recv and c.func.attr in ("dot", "astype", "copy", "reshape", "tolist"):
+            continue
+        bad.append((c, ast.unparse(c)))
+    return bad
+
+
+def check_partition_sites(ctx, rule="R5.2", only=None):
     prog = ctx.prog
     n = 0
     for modname, qual in ROW_PARTITIONED:
+        if only is not None and qual not in only:
+            continue
         cls, meth = qual.split(".")
         fn = prog.method(cls, meth)
         ctx.saw_fn(fn)
@@ -381,7 +417,7 @@ def check_partition_sites(ctx):
                         k.arg == "require" for k in node.func.keywords):
                 par = node
         if par is None:
-            ctx.undecided("R5.2", "row-partitioned Parallel site in %s" % qual, fn.node, fn,
+            ctx.undecided(rule, "row-partitioned Parallel site in %s" % qual, fn.node, fn,
                           "no Parallel(...)(...) call without require= found", construct="def " + qual)
             continue
         n += 1
@@ -393,22 +429,24 @@ def check_partition_sites(ctx):
         # the partition call (names of the three results are free)
         part, pb = find("_NJ_, _NC_, _ST_ = self._partition_contexts(_EA_)", fn.node)
         okp = part is not None and part.lineno < par.lineno
-        ctx.check(okp, "R5.2", "%s: n_jobs and starts come from one _partition_contexts call before the tasks" % qual,
-                  part if part is not None else par, fn)
+        ctx.check(okp, rule, "%s: n_jobs and starts come from one _partition_contexts call before the tasks" % qual,
+                  part if part is not None else par, fn,
+                  "expected `n_jobs, counts, starts = self._partition_contexts(<number of rows>)` before the "
+                  "Parallel call: slices, offsets and the number of tasks must all come from that one partition")
         if not okp:
             continue
         NJ, ST = pb["_NJ_"], pb["_ST_"]
-        ctx.check(ast.unparse(g.iter) == "range(%s)" % NJ, "R5.2", "%s: tasks range over range(n_jobs)" % qual, par,
+        ctx.check(ast.unparse(g.iter) == "range(%s)" % NJ, rule, "%s: tasks range over range(n_jobs)" % qual, par,
                   fn, "iterable is %s" % ast.unparse(g.iter), construct="task iterable of " + qual)
         pkw = {k.arg: ast.unparse(k.value) for k in par.func.keywords}
-        ctx.check(pkw.get("n_jobs") == NJ, "R5.2", "%s: Parallel runs with the n_jobs of the partition" % qual, par, fn,
+        ctx.check(pkw.get("n_jobs") == NJ, rule, "%s: Parallel runs with the n_jobs of the partition" % qual, par, fn,
                   "n_jobs=%s" % pkw.get("n_jobs"), construct="Parallel n_jobs of " + qual)
         # slices
         sl = [a for a in task.args if isinstance(a, ast.Subscript) and isinstance(a.slice, ast.Slice)]
         want = ("%s[%s]" % (ST, ivar), "%s[%s + 1]" % (ST, ivar))
         okb = bool(sl) and all(ast.unparse(a.slice.lower) == want[0] and ast.unparse(a.slice.upper) == want[1]
                                and a.slice.step is None for a in sl)
-        ctx.check(okb, "R5.2", "%s: every per-row argument is sliced starts[i]:starts[i+1]" % qual, task, fn,
+        ctx.check(okb, rule, "%s: every per-row argument is sliced starts[i]:starts[i+1]" % qual, task, fn,
                   "slices: %s" % [ast.unparse(a) for a in sl], construct="task slices of " + qual)
         sliced = [ast.unparse(a.value) for a in sl]
         # the partitioned length is the length of the sliced array
@@ -420,7 +458,7 @@ def check_partition_sites(ctx):
                 if isinstance(node, ast.Assign) and ast.unparse(node.targets[0]) == arg and \
                         ast.unparse(node.value) in lens and node.lineno < part.lineno:
                     src_ok = True
-        ctx.check(src_ok, "R5.2", "%s: the partition is computed from the length of the sliced rows" % qual, part,
+        ctx.check(src_ok, rule, "%s: the partition is computed from the length of the sliced rows" % qual, part,
                   fn, "_partition_contexts(%s) vs sliced %s" % (arg, sliced), construct="partition source of " + qual)
         # offset argument
         callee_name = ast.unparse(task.func.args[0]).split(".")[-1]
@@ -433,7 +471,7 @@ def check_partition_sites(ctx):
                 continue
             s_ = ast.unparse(a)
             if (isinstance(a, ast.Subscript) and ast.unparse(a.value) == ST) or pos == off_pos:
-                ctx.check(s_ == "%s[%s]" % (ST, ivar), "R5.2", "%s: the offset argument is the slice's lower bound" %
+                ctx.check(s_ == "%s[%s]" % (ST, ivar), rule, "%s: the offset argument is the slice's lower bound" %
                           qual, a, fn, "offset %s" % s_, construct="offset argument of " + qual)
         # per-row seeds: a sliced name that was drawn from the bandit generator
         seeds_stmt = None
@@ -444,7 +482,7 @@ def check_partition_sites(ctx):
                         ast.unparse(node.value).startswith("self.rng."):
                     seeds_stmt, seeds_name = node, nm
         if meth == "_parallel_predict" or seeds_stmt is not None:
-            ctx.check(seeds_stmt is not None and len(sl) >= 2, "R5.2", "%s: the per-row seeds are sliced with the "
+            ctx.check(seeds_stmt is not None and len(sl) >= 2, rule, "%s: the per-row seeds are sliced with the "
                       "same bounds as the rows" % qual, task, fn, construct="seed slices of " + qual)
             oks = seeds_stmt is not None and seeds_stmt.lineno < par.lineno
             size = None
@@ -461,10 +499,30 @@ def check_partition_sites(ctx):
                     if isinstance(node, ast.Assign) and ast.unparse(node.targets[0]) == size and \
                             ast.unparse(node.value) in ["sum(%s)" % pb["_NC_"]] + ["len(%s)" % r for r in rows]:
                         total_ok = True
-            ctx.check(bool(oks and total_ok), "R5.2", "%s: one seed per row is drawn from the bandit generator "
+            ctx.check(bool(oks and total_ok), rule, "%s: one seed per row is drawn from the bandit generator "
                       "before the tasks start, with a size that is the total row count" % qual,
                       seeds_stmt if seeds_stmt is not None else par, fn, "size=%s" % size,
                       construct="seed draw of " + qual)
+        # the task itself is row-local: whatever it computes from its chunk of rows is computed row by row
+        if callee_name != "_predict_contexts":          # those bodies are decided by R5.1 on the traces
+            cands = [f for f in prog.all_functions() if f.name == callee_name and f.cls is not None and (
+                f.cls.name == cls or any(k.name == f.cls.name for k in prog.cls(cls).mro))]
+            for tf in cands[:1]:
+                ctx.saw_fn(tf)
+                off = 0 if tf.is_static else 1
+                for pos, a in enumerate(task.args):
+                    if a not in sl or pos + off >= len(tf.params):
+                        continue
+                    chunk = tf.params[pos + off]
+                    bad = _chunk_level_uses(tf, chunk)
+                    inst = "%s handles the rows of its chunk `%s` one by one" % (tf.qualname, chunk)
+                    if not bad:
+                        ctx.ok(rule, inst, tf.node, tf, construct="def %s (row-local task)" % tf.qualname)
+                    for node, what in bad:
+                        ctx.violate(rule, inst, node, tf, "`%s` is computed from the whole chunk: a value shared "
+                                    "by the rows of one worker depends on how the rows were partitioned, i.e. on "
+                                    "n_jobs (e.g. cdist estimates the parameters of seuclidean / mahalanobis from all "
+                                    "rows it is given)" % what)
         # ordered reduction: the per-job results are joined completely and in submission order
         pstmt = parent(par)
         res_name = ast.unparse(pstmt.targets[0]) if isinstance(pstmt, ast.Assign) and len(pstmt.targets) == 1 and \
@@ -474,12 +532,12 @@ def check_partition_sites(ctx):
             if getattr(node, "lineno", 0) >= par.lineno and _ordered_reduction(node, res_name, par):
                 red = node
                 break
-        ctx.check(red is not None, "R5.2", "%s: results are concatenated in submission order" % qual,
+        ctx.check(red is not None, rule, "%s: results are concatenated in submission order" % qual,
                   red if red is not None else par, fn, "no list(chain.from_iterable(r)) / np.concatenate(r) / "
                   "[y for x in r for y in x] over the Parallel result `%s` found (a merge that can drop or reorder "
                   "per-job results makes the outcome depend on the partition)" % res_name,
                   construct="reduction of " + qual)
-    ctx.floor("R5.2", "row-partitioned Parallel sites", n, 4)
+    ctx.floor(rule, "row-partitioned Parallel sites", n, 4 if only is None else len(only))
 
 
 # ================================================================================================ R5.3
